@@ -214,8 +214,11 @@ fn sink_action(w: &W, k: usize, allow_nothing: bool) -> bool {
 }
 fn sink_react(w: &W, k: usize) {
     while sink_action(w, k, true) {}
-    // scenario suffix X with several sinks (share): the consumers may be coupled behind the scenes, so ANOTHER
-    // sink may act (pull / leave) while this one is being delivered to
+    cross_sink(w, k);
+}
+/// scenario suffix X with several sinks (share): the consumers may be coupled behind the scenes, so ANOTHER
+/// sink may act (pull / leave) while this one is being delivered to (also while it is being told the end)
+fn cross_sink(w: &W, k: usize) {
     let (cross, n) = { let g = w.lock().unwrap(); (g.cross, g.sinks.len()) };
     if cross && n > 1 {
         let c = choose(w, n + 1);
@@ -240,8 +243,8 @@ fn puppet_sink(w: &W, k: usize) -> Sink {
             Message::Handshake(tb) => { { let mut g = w.lock().unwrap(); if g.sinks[k].st == SinkSt::NotGreeted { g.sinks[k].st = SinkSt::Live; g.sinks[k].tb = Some(tb); } } sink_react(&w, k); }
             Message::Data(v) => { w.lock().unwrap().sinks[k].data.push(v); sink_react(&w, k); }
             Message::Pull => violate(&w, "C04", format!("{} was pulled by its source", name)),
-            Message::Terminate => { let mut g = w.lock().unwrap(); if g.sinks[k].st == SinkSt::Live { g.sinks[k].st = SinkSt::Ended; } }
-            Message::Error(e) => { let mut g = w.lock().unwrap(); if g.sinks[k].st == SinkSt::Live { g.sinks[k].st = SinkSt::Ended; g.sinks[k].err = Some(e.to_string()); } }
+            Message::Terminate => { { let mut g = w.lock().unwrap(); if g.sinks[k].st == SinkSt::Live { g.sinks[k].st = SinkSt::Ended; } } cross_sink(&w, k); }
+            Message::Error(e) => { { let mut g = w.lock().unwrap(); if g.sinks[k].st == SinkSt::Live { g.sinks[k].st = SinkSt::Ended; g.sinks[k].err = Some(e.to_string()); } } cross_sink(&w, k); }
         }
     }).into())
 }
@@ -348,11 +351,13 @@ fn share_checks(w: &W) {
     let mut v = vec![];
     if attached == 0 && up_alive { v.push(("C12", "the upstream subscription is still alive although every sink has detached".to_string())); }
     if attached > 0 && !up_alive { v.push(("C12", "a sink is attached but no upstream subscription is alive".to_string())); }
+    // C05: with share, every attached sink receives the upstream failure
+    if g.srcs[0].st == SrcSt::Errored { for s in g.sinks.iter().filter(|s| s.st == SinkSt::Live) { v.push(("C05", format!("the upstream failed but {} was not told", s.name))); } }
     // every attached sink has every datum emitted since it attached (nested fan-out, finding F4, reorders them: compare as sets there)
     for s in g.sinks.iter().filter(|s| s.st == SinkSt::Live) {
         let exp: Vec<u32> = g.emitted[s.attach_at.min(g.emitted.len())..].iter().map(|e| e.1).collect();
         let mut a = s.data.clone(); a.sort(); let mut b = exp.clone(); b.sort();
-        if a != b && !(a.len() <= b.len() && b.ends_with(&a)) { v.push(("C12", format!("{} is attached and has received {:?} of the data {:?} emitted since it attached", s.name, s.data, exp))); }
+        if a != b { v.push(("C12", format!("{} is attached and has received {:?} of the data {:?} emitted since it attached", s.name, s.data, exp))); }
     }
     drop(g);
     for (p, what) in v { violate(w, p, what); }
@@ -540,12 +545,13 @@ fn main() {
         Some("collect") => {
             // replay collect <scenario> [--len N] [--budget N] [--exclude text]..
             let op = &a[2];
-            let mut excl: Vec<String> = vec![]; let mut len = 10usize; let mut budget: u64 = 3_000_000;
+            let mut excl: Vec<String> = vec![]; let mut len = 10usize; let mut budget: u64 = 3_000_000; let mut start: Vec<u8> = vec![];
             let mut i = 3;
-            while i + 1 < a.len() { match a[i].as_str() { "--exclude" => excl.push(a[i + 1].clone()), "--len" => len = a[i + 1].parse().unwrap(), "--budget" => budget = a[i + 1].parse().unwrap(), _ => {} } i += 2; }
+            while i + 1 < a.len() { match a[i].as_str() { "--exclude" => excl.push(a[i + 1].clone()), "--len" => len = a[i + 1].parse().unwrap(), "--budget" => budget = a[i + 1].parse().unwrap(), "--prefix" => start = serde_json::from_str(&a[i + 1]).expect("prefix must be a JSON array of bytes"), _ => {} } i += 2; }
             let total = budget;
             let mut hits = std::collections::BTreeMap::new();
-            collect(op, &excl, len, &mut budget, &mut vec![], &mut hits);
+            // (with --prefix every tape explored starts with that setup; --len counts the whole tape)
+            collect(op, &excl, len, &mut budget, &mut start, &mut hits);
             let h: serde_json::Map<String, serde_json::Value> = hits.iter().map(|(p, (t, o))| (p.clone(), serde_json::json!({"tape": t, "violations": o.violations.iter().map(|(p, w)| serde_json::json!({"property": p, "what": w})).collect::<Vec<_>>(), "history": o.log}))).collect();
             println!("{}", serde_json::json!({"hits": h, "runs": total - budget, "budget_exhausted": budget == 0, "max_len": len}));
             std::process::exit(if hits.is_empty() { 0 } else { 1 });
